@@ -146,8 +146,44 @@ func purgeHelpers(w *World) map[*ssa.Function]bool {
 			}
 		})
 	}
-	if len(out) < 2 {
-		undecided("STORE-ERR: expected the expire helpers of both state implementations to call core.checkExpiration, found %d", len(out))
+	// wrappers: a function every Return of which hands back, result for result, what one call of a purge helper
+	// returned (`return Expire(ctx, ..., s.rem)`): the two states' expire methods after the helper was generalised.
+	for changed := true; changed; {
+		changed = false
+		for _, fn := range w.Funcs {
+			if out[fn] || isTestFile(w, fn) || fn.Signature.Results().Len() < 2 {
+				continue
+			}
+			rets, all := 0, true
+			allInstrs(fn, func(in ssa.Instruction) {
+				ret, ok := in.(*ssa.Return)
+				if !ok {
+					return
+				}
+				rets++
+				var call *ssa.Call
+				for i, rv := range ret.Results {
+					ex, ok := resolveSpill(rv).(*ssa.Extract)
+					if !ok || ex.Index != i {
+						all = false
+						return
+					}
+					c, ok := ex.Tuple.(*ssa.Call)
+					if !ok || (call != nil && c != call) || c.Common().StaticCallee() == nil || !out[c.Common().StaticCallee()] {
+						all = false
+						return
+					}
+					call = c
+				}
+			})
+			if rets > 0 && all {
+				out[fn] = true
+				changed = true
+			}
+		}
+	}
+	if len(out) < 1 {
+		undecided("STORE-ERR: expected at least one function that calls core.checkExpiration (the purge helpers), found %d", len(out))
 	}
 	return out
 }
